@@ -118,6 +118,21 @@ You can provide input either as a file (as the first argument) or by piping logs
 				fmt.Fprintln(os.Stderr, "Error: Atlas parameters were given without --atlasProjectId and --atlasClusterName. Both are required to read logs from an Atlas cluster.")
 				os.Exit(1)
 			}
+			// Validation: the Atlas API key pair must be known before anything is created or contacted
+			atlasResolvedPublicKey := atlasPublicKey
+			atlasResolvedPrivateKey := atlasPrivateKey
+			if atlasParamsSet {
+				if atlasResolvedPublicKey == "" {
+					atlasResolvedPublicKey = os.Getenv("ATLAS_PUBLIC_KEY")
+				}
+				if atlasResolvedPrivateKey == "" {
+					atlasResolvedPrivateKey = os.Getenv("ATLAS_PRIVATE_KEY")
+				}
+				if atlasResolvedPublicKey == "" || atlasResolvedPrivateKey == "" {
+					fmt.Fprintln(os.Stderr, "Error: Atlas public/private key not set. Please provide --atlasPublicKey and --atlasPrivateKey or set ATLAS_PUBLIC_KEY and ATLAS_PRIVATE_KEY environment variables.")
+					os.Exit(1)
+				}
+			}
 			if !atlasParamsSet && len(args) == 1 && stdinHasData {
 				fmt.Fprintln(os.Stderr, "Error: Cannot provide both a file and piped input. Please provide only one source.")
 				os.Exit(1)
@@ -185,18 +200,8 @@ You can provide input either as a file (as the first argument) or by piping logs
 
 			// --- Atlas mode ---
 			if atlasParamsSet {
-				publicKey := atlasPublicKey
-				privateKey := atlasPrivateKey
-				if publicKey == "" {
-					publicKey = os.Getenv("ATLAS_PUBLIC_KEY")
-				}
-				if privateKey == "" {
-					privateKey = os.Getenv("ATLAS_PRIVATE_KEY")
-				}
-				if publicKey == "" || privateKey == "" {
-					fmt.Fprintln(os.Stderr, "Error: Atlas public/private key not set. Please provide --atlasPublicKey and --atlasPrivateKey or set ATLAS_PUBLIC_KEY and ATLAS_PRIVATE_KEY environment variables.")
-					os.Exit(1)
-				}
+				publicKey := atlasResolvedPublicKey
+				privateKey := atlasResolvedPrivateKey
 				client := NewAtlasClient(nil)
 				start, end := GetStartAndEndDates()
 				files, err := client.DownloadClusterLogs(cmd.Context(), publicKey, privateKey, atlasProjectId, atlasClusterName, start, end)
